@@ -183,7 +183,7 @@ DYN = ("dyn", 5, 5)           # answers `sometimes`, enabled() accepts everythin
 
 
 def c04_families():
-    f = [ACC, REJ_A, LOW, DYN]
+    f = [ACC, REJ_A, LOW, DYN, ("level", 3)]
     P = "plain"
     probe = lambda cs: [(1, ("emit", cs)), (0, ("emit", cs))]
     fam = []
@@ -234,6 +234,20 @@ def c04_families():
     fam.append(("firsthit-vs-reload-to-accepting", {
         "n": 2, "filters": f, "pre": [(0, ("new", 0, 1, "rlayer")), (0, ("setdefault", 0)), (1, ("setdefault", 0))],
         "progs": [[("reload", 0, 0)], [("emit", 3)]], "post": [(1, ("emit", 3)), (0, ("emit", 3))]}))
+    # two writers with different hints: computing and publishing MAX_LEVEL must be one critical section (a writer parked before the
+    # swap still holds the lock, so the other cannot complete and be overwritten by the stale lower level)
+    fam.append(("two-news-different-hints", {
+        "n": 2, "filters": f, "pre": [],
+        "progs": [[("new", 1, 4, P)], [("new", 2, 0, P)]],
+        "post": [(1, ("setdefault", 2)), (1, ("emit", 3)), (1, ("emit", 4)), (0, ("setdefault", 2)), (0, ("emit", 3)), (0, ("setdefault", 1)), (0, ("emit", 2))]}))
+    fam.append(("new-vs-reload-different-hints", {
+        "n": 2, "filters": f, "pre": [(0, ("new", 0, 0, "rlayer"))],
+        "progs": [[("reload", 0, 2)], [("new", 1, 0, P)]],
+        "post": [(1, ("setdefault", 1)), (1, ("emit", 3)), (0, ("setdefault", 1)), (0, ("emit", 4)), (0, ("setdefault", 0)), (0, ("emit", 1))]}))
+    fam.append(("new-vs-rebuild-after-drop", {
+        "n": 2, "filters": f, "pre": [(0, ("new", 0, 2, P))],
+        "progs": [[("rebuild",)], [("new", 1, 0, P)]],
+        "post": [(1, ("setdefault", 1)), (1, ("emit", 3)), (0, ("setdefault", 1)), (0, ("emit", 4))]}))
     # two threads reloading through the same handle (no-deadlock clause: the cell's lock must never be held across the rebuild)
     fam.append(("two-reloads-same-handle", {
         "n": 2, "filters": f, "pre": [(0, ("new", 0, 0, "rlayer")), (0, ("setdefault", 0)), (1, ("setdefault", 0)), (1, ("emit", 3))],
